@@ -385,42 +385,28 @@ Proof.
     intros p Hn. unfold fs_get, fs_put. apply lookup_insert_other. exact Hn.
 Qed.
 
-(* generate -c: refusal leaves the file system alone; outside C19-8 the run obeys
-   flag over file over default *)
+(* generate -c: invalid effective settings are refused and the file system left alone;
+   otherwise the run obeys flag over file over default *)
 Theorem generate_c_spec f fl p d c0 :
-  fs_get f p = Some (NDoc (Some d)) -> from_flat d = Some c0 -> kf_cfile_prevalidated f fl p = false ->
+  fs_get f p = Some (NDoc (Some d)) -> from_flat d = Some c0 ->
   if spec_invalid f (spec_eff_c fl d)
-  then run_generate_c f fl p = RFail f \/ exists err, run_generate_c f fl p = RReject err f
+  then exists err, run_generate_c f fl p = RReject err f
   else (run_generate_c f fl p = RNoCommands (spec_eff_c fl d) f /\ fs_get f (e_project (spec_eff_c fl d)) <> Some NProj)
        \/ exists f', run_generate_c f fl p = RRun (spec_eff_c fl d) f'
                      /\ fs_get f (e_project (spec_eff_c fl d)) = Some NProj
                      /\ forall q, norm q <> norm (e_output (spec_eff_c fl d)) -> fs_get f' q = fs_get f q.
 Proof.
-  intros Hg Hd Hk. unfold kf_cfile_prevalidated in Hk. rewrite Hg, Hd in Hk.
-  unfold run_generate_c, from_file. rewrite Hg, Hd.
-  pose proof (run_with_spec f fl c0 _ (precedence_c fl d c0 Hd)) as Hr.
-  destruct (validate f c0) as [er|].
-  - apply negb_false_iff in Hk. rewrite Hk. left. reflexivity.
-  - destruct (spec_invalid f (spec_eff_c fl d)); [right|]; exact Hr.
+  intros Hg Hd. unfold run_generate_c, from_file_unvalidated. rewrite Hg, Hd.
+  exact (run_with_spec f fl c0 _ (precedence_c fl d c0 Hd)).
 Qed.
 
 Theorem generate_c_unreadable f fl p :
   (forall d c0, fs_get f p = Some (NDoc (Some d)) -> from_flat d = Some c0 -> False) ->
   run_generate_c f fl p = RFail f.
 Proof.
-  intros H. unfold run_generate_c, from_file.
+  intros H. unfold run_generate_c, from_file_unvalidated.
   destruct (fs_get f p) as [[| |[d|]|o]|] eqn:Eg; try reflexivity.
   destruct (from_flat d) as [c0|] eqn:Ed; [|reflexivity]. exfalso. eapply H; [reflexivity|exact Ed].
-Qed.
-
-Lemma generate_c_prevalidated_refuted : exists f fl p d,
-  fs_get f p = Some (NDoc (Some d)) /\ kf_cfile_prevalidated f fl p = true /\
-  spec_invalid f (spec_eff_c fl d) = false /\ run_generate_c f fl p = RFail f.
-Proof.
-  exists [("projB", NProj); ("typegen.json", NDoc (Some (JObj [("output_path", JStr "./outF")])))],
-         {| f_project := Some "./projB"; f_output := None; f_validation := None; f_verbose := false;
-            f_visualize := false; f_force := false |}, "typegen.json".
-  eexists. split; [reflexivity|]. repeat split; reflexivity.
 Qed.
 
 Theorem oracle_flat_roundtrip_model c : flat_roundtrip_b c (from_flat (flat_json c)) = true.
